@@ -60,7 +60,7 @@ MANIFEST = dict(
               "event log + argument provenance",
 )
 FLOORS = {"C01.1": 1, "C01.2": 6, "C01.3": 18, "C01.4": 8, "C01.5": 25,
-          "C01.6": 20}
+          "C01.6": 20, "C01.7": 12}
 
 APE = "evo.core.metrics.APE"
 
@@ -235,6 +235,7 @@ def check(ctx):
     _pipeline(ctx, "evo.main_ape.ape", "APE", "C01")
     _run_wiring(ctx, "evo.main_ape", "ape", "C01")
     _pipeline_views(ctx, "C01.6")
+    _pipeline_inputs(ctx, "C01.7")
 
 
 def _unconditional_after_guard(e: Event) -> bool:
@@ -244,6 +245,23 @@ def _unconditional_after_guard(e: Event) -> bool:
             return False if t.args[0] == "NotEq" else None
         return None
     return tm.fold(e.live, assign) is True
+
+
+def _pipeline_inputs(ctx, rule: str):
+    """'the stored values are for exactly the pose pairs that remain after
+    the requested filtering and time association' of *trajectory files*:
+    necessary are the readers' column layouts (a wrong slot changes every
+    value), inclusive time cropping, and role / offset-sign preservation of
+    the association — instances of C07.1, C11.3, C05.2 / C05.4."""
+    from ..core import import_rules
+    n = import_rules(ctx, "c07", ("C07.1",), rule,
+                     pred=lambda o: o.key.split(":")[1] in (
+                         "read_tum_trajectory_file", "read_kitti_poses_file",
+                         "read_euroc_csv_trajectory", "kitti"))
+    n += import_rules(ctx, "c11", ("C11.3",), rule)
+    n += import_rules(ctx, "c05", ("C05.2", "C05.4"), rule)
+    ctx.require(n >= 12, f"{rule}: reader / crop / association instances "
+                f"not found")
 
 
 def _pipeline_views(ctx, rule: str):
